@@ -1,14 +1,14 @@
 import GoLevel.Proofs.LocksCount
 /-! Every step of a configuration with the three fixes (and the fourth, or no `SetReadOnly`) preserves the exact
 ownership accounting of the write-lock token — provided the two blind take-backs find the token they are meant
-for: a `SetReadOnly` that gives up on `closeC` still has its claim (`hJ1`), and so has `compactionError` in the
+for: a `SetReadOnly` between its two `select`s still has its claim (`hJ1`), and so has `compactionError` in the
 `closeC` case of `hasperr` (`hJ2`). -/
 namespace GoLevel.Locks
 set_option linter.unusedSimpArgs false
 
 theorem step_tokE (s t : St) (f : Bool) (cfg : Cfg) (h3 : Fixed3 cfg)
     (h4 : cfg.setReadOnlyReleasesOnClose = true ∨ NoSR s)
-    (hJ1 : s.closed = true → 0 < tot srW s.ws → s.ehTok = true) (hJ2 : s.eh = .closing → s.ehTok = true)
+    (hJ1 : 0 < tot srW s.ws → s.ehTok = true) (hJ2 : s.eh = .closing → s.ehTok = true)
     (h : Step cfg f s t) (inv : TokE s) : TokE t := by
   unfold TokE at *
   obtain ⟨f1, f2, f3⟩ := h3
@@ -20,35 +20,35 @@ theorem step_tokE (s t : St) (f : Bool) (cfg : Cfg) (h3 : Fixed3 cfg)
   | startPut _ i hi =>
     clear h4 hJ1 hJ2
     have l1 := le_tot tokW _ _ _ hi
-    (try simp only [St.setDone, St.setBg]) <;> (repeat' split) <;> simp_all [tot_set_eq _ _ _ _ _ hi, tot_ackWs_tok, tot_ackWs_clk, tot_ackWs_trlk, tokW, b2n_true, b2n_false, bgClk_run, bgClk_idle, bgClk_exited, bgClk_parked, bgClk_clearW, bgClk_afterCmd, bphClk, St.bg, onOk, onErr, selNext, afterSetErr, srAllW, srW] <;> (try omega)
+    (try simp only [St.setDone, St.setBg, ↓reduceIte, Bool.false_eq_true, Bool.and_false, Bool.and_true, Bool.false_and, Bool.true_and]) <;> (repeat' split) <;> simp_all [tot_set_eq _ _ _ _ _ hi, tot_ackWs_tok, tot_ackWs_clk, tot_ackWs_trlk, tokW, b2n_true, b2n_false, bgClk_run, bgClk_idle, bgClk_exited, bgClk_parked, bgClk_clearW, bgClk_afterCmd, bphClk, St.bg, onOk, onErr, selNext, afterSetErr, srAllW, srW] <;> (try omega)
   | startWrite _ i hi =>
     clear h4 hJ1 hJ2
     have l1 := le_tot tokW _ _ _ hi
-    (try simp only [St.setDone, St.setBg]) <;> (repeat' split) <;> simp_all [tot_set_eq _ _ _ _ _ hi, tot_ackWs_tok, tot_ackWs_clk, tot_ackWs_trlk, tokW, b2n_true, b2n_false, bgClk_run, bgClk_idle, bgClk_exited, bgClk_parked, bgClk_clearW, bgClk_afterCmd, bphClk, St.bg, onOk, onErr, selNext, afterSetErr, srAllW, srW] <;> (try omega)
+    (try simp only [St.setDone, St.setBg, ↓reduceIte, Bool.false_eq_true, Bool.and_false, Bool.and_true, Bool.false_and, Bool.true_and]) <;> (repeat' split) <;> simp_all [tot_set_eq _ _ _ _ _ hi, tot_ackWs_tok, tot_ackWs_clk, tot_ackWs_trlk, tokW, b2n_true, b2n_false, bgClk_run, bgClk_idle, bgClk_exited, bgClk_parked, bgClk_clearW, bgClk_afterCmd, bphClk, St.bg, onOk, onErr, selNext, afterSetErr, srAllW, srW] <;> (try omega)
   | startOtx _ i hi =>
     clear h4 hJ1 hJ2
     have l1 := le_tot tokW _ _ _ hi
-    (try simp only [St.setDone, St.setBg]) <;> (repeat' split) <;> simp_all [tot_set_eq _ _ _ _ _ hi, tot_ackWs_tok, tot_ackWs_clk, tot_ackWs_trlk, tokW, b2n_true, b2n_false, bgClk_run, bgClk_idle, bgClk_exited, bgClk_parked, bgClk_clearW, bgClk_afterCmd, bphClk, St.bg, onOk, onErr, selNext, afterSetErr, srAllW, srW] <;> (try omega)
+    (try simp only [St.setDone, St.setBg, ↓reduceIte, Bool.false_eq_true, Bool.and_false, Bool.and_true, Bool.false_and, Bool.true_and]) <;> (repeat' split) <;> simp_all [tot_set_eq _ _ _ _ _ hi, tot_ackWs_tok, tot_ackWs_clk, tot_ackWs_trlk, tokW, b2n_true, b2n_false, bgClk_run, bgClk_idle, bgClk_exited, bgClk_parked, bgClk_clearW, bgClk_afterCmd, bphClk, St.bg, onOk, onErr, selNext, afterSetErr, srAllW, srW] <;> (try omega)
   | startCommit _ i hi hu =>
     clear h4 hJ1 hJ2
     have l1 := le_tot tokW _ _ _ hi
-    (try simp only [St.setDone, St.setBg]) <;> (repeat' split) <;> simp_all [tot_set_eq _ _ _ _ _ hi, tot_ackWs_tok, tot_ackWs_clk, tot_ackWs_trlk, tokW, b2n_true, b2n_false, bgClk_run, bgClk_idle, bgClk_exited, bgClk_parked, bgClk_clearW, bgClk_afterCmd, bphClk, St.bg, onOk, onErr, selNext, afterSetErr, srAllW, srW] <;> (try omega)
+    (try simp only [St.setDone, St.setBg, ↓reduceIte, Bool.false_eq_true, Bool.and_false, Bool.and_true, Bool.false_and, Bool.true_and]) <;> (repeat' split) <;> simp_all [tot_set_eq _ _ _ _ _ hi, tot_ackWs_tok, tot_ackWs_clk, tot_ackWs_trlk, tokW, b2n_true, b2n_false, bgClk_run, bgClk_idle, bgClk_exited, bgClk_parked, bgClk_clearW, bgClk_afterCmd, bphClk, St.bg, onOk, onErr, selNext, afterSetErr, srAllW, srW] <;> (try omega)
   | startDiscard _ i hi hu =>
     clear h4 hJ1 hJ2
     have l1 := le_tot tokW _ _ _ hi
-    (try simp only [St.setDone, St.setBg]) <;> (repeat' split) <;> simp_all [tot_set_eq _ _ _ _ _ hi, tot_ackWs_tok, tot_ackWs_clk, tot_ackWs_trlk, tokW, b2n_true, b2n_false, bgClk_run, bgClk_idle, bgClk_exited, bgClk_parked, bgClk_clearW, bgClk_afterCmd, bphClk, St.bg, onOk, onErr, selNext, afterSetErr, srAllW, srW] <;> (try omega)
+    (try simp only [St.setDone, St.setBg, ↓reduceIte, Bool.false_eq_true, Bool.and_false, Bool.and_true, Bool.false_and, Bool.true_and]) <;> (repeat' split) <;> simp_all [tot_set_eq _ _ _ _ _ hi, tot_ackWs_tok, tot_ackWs_clk, tot_ackWs_trlk, tokW, b2n_true, b2n_false, bgClk_run, bgClk_idle, bgClk_exited, bgClk_parked, bgClk_clearW, bgClk_afterCmd, bphClk, St.bg, onOk, onErr, selNext, afterSetErr, srAllW, srW] <;> (try omega)
   | startCR _ i hi =>
     clear h4 hJ1 hJ2
     have l1 := le_tot tokW _ _ _ hi
-    (try simp only [St.setDone, St.setBg]) <;> (repeat' split) <;> simp_all [tot_set_eq _ _ _ _ _ hi, tot_ackWs_tok, tot_ackWs_clk, tot_ackWs_trlk, tokW, b2n_true, b2n_false, bgClk_run, bgClk_idle, bgClk_exited, bgClk_parked, bgClk_clearW, bgClk_afterCmd, bphClk, St.bg, onOk, onErr, selNext, afterSetErr, srAllW, srW] <;> (try omega)
+    (try simp only [St.setDone, St.setBg, ↓reduceIte, Bool.false_eq_true, Bool.and_false, Bool.and_true, Bool.false_and, Bool.true_and]) <;> (repeat' split) <;> simp_all [tot_set_eq _ _ _ _ _ hi, tot_ackWs_tok, tot_ackWs_clk, tot_ackWs_trlk, tokW, b2n_true, b2n_false, bgClk_run, bgClk_idle, bgClk_exited, bgClk_parked, bgClk_clearW, bgClk_afterCmd, bphClk, St.bg, onOk, onErr, selNext, afterSetErr, srAllW, srW] <;> (try omega)
   | startSR _ i hi ha =>
     clear h4 hJ1 hJ2
     have l1 := le_tot tokW _ _ _ hi
-    (try simp only [St.setDone, St.setBg]) <;> (repeat' split) <;> simp_all [tot_set_eq _ _ _ _ _ hi, tot_ackWs_tok, tot_ackWs_clk, tot_ackWs_trlk, tokW, b2n_true, b2n_false, bgClk_run, bgClk_idle, bgClk_exited, bgClk_parked, bgClk_clearW, bgClk_afterCmd, bphClk, St.bg, onOk, onErr, selNext, afterSetErr, srAllW, srW] <;> (try omega)
+    (try simp only [St.setDone, St.setBg, ↓reduceIte, Bool.false_eq_true, Bool.and_false, Bool.and_true, Bool.false_and, Bool.true_and]) <;> (repeat' split) <;> simp_all [tot_set_eq _ _ _ _ _ hi, tot_ackWs_tok, tot_ackWs_clk, tot_ackWs_trlk, tokW, b2n_true, b2n_false, bgClk_run, bgClk_idle, bgClk_exited, bgClk_parked, bgClk_clearW, bgClk_afterCmd, bphClk, St.bg, onOk, onErr, selNext, afterSetErr, srAllW, srW] <;> (try omega)
   | startClose _ i hi =>
     clear h4 hJ1 hJ2
     have l1 := le_tot tokW _ _ _ hi
-    (try simp only [St.setDone, St.setBg]) <;> (repeat' split) <;> simp_all [tot_set_eq _ _ _ _ _ hi, tot_ackWs_tok, tot_ackWs_clk, tot_ackWs_trlk, tokW, b2n_true, b2n_false, bgClk_run, bgClk_idle, bgClk_exited, bgClk_parked, bgClk_clearW, bgClk_afterCmd, bphClk, St.bg, onOk, onErr, selNext, afterSetErr, srAllW, srW] <;> (try omega)
+    (try simp only [St.setDone, St.setBg, ↓reduceIte, Bool.false_eq_true, Bool.and_false, Bool.and_true, Bool.false_and, Bool.true_and]) <;> (repeat' split) <;> simp_all [tot_set_eq _ _ _ _ _ hi, tot_ackWs_tok, tot_ackWs_clk, tot_ackWs_trlk, tokW, b2n_true, b2n_false, bgClk_run, bgClk_idle, bgClk_exited, bgClk_parked, bgClk_clearW, bgClk_afterCmd, bphClk, St.bg, onOk, onErr, selNext, afterSetErr, srAllW, srW] <;> (try omega)
   | selTok _ i p q hi hq ht =>
     clear h4 hJ1 hJ2
     have l1 := le_tot tokW _ _ _ hi
@@ -64,265 +64,266 @@ theorem step_tokE (s t : St) (f : Bool) (cfg : Cfg) (h3 : Fixed3 cfg)
   | putNoWait _ i hi =>
     clear h4 hJ1 hJ2
     have l1 := le_tot tokW _ _ _ hi
-    (try simp only [St.setDone, St.setBg]) <;> (repeat' split) <;> simp_all [tot_set_eq _ _ _ _ _ hi, tot_ackWs_tok, tot_ackWs_clk, tot_ackWs_trlk, tokW, b2n_true, b2n_false, bgClk_run, bgClk_idle, bgClk_exited, bgClk_parked, bgClk_clearW, bgClk_afterCmd, bphClk, St.bg, onOk, onErr, selNext, afterSetErr, srAllW, srW] <;> (try omega)
+    (try simp only [St.setDone, St.setBg, ↓reduceIte, Bool.false_eq_true, Bool.and_false, Bool.and_true, Bool.false_and, Bool.true_and]) <;> (repeat' split) <;> simp_all [tot_set_eq _ _ _ _ _ hi, tot_ackWs_tok, tot_ackWs_clk, tot_ackWs_trlk, tokW, b2n_true, b2n_false, bgClk_run, bgClk_idle, bgClk_exited, bgClk_parked, bgClk_clearW, bgClk_afterCmd, bphClk, St.bg, onOk, onErr, selNext, afterSetErr, srAllW, srW] <;> (try omega)
   | putWait _ i b hi =>
     clear h4 hJ1 hJ2
     have l1 := le_tot tokW _ _ _ hi
-    cases b <;> (try simp only [St.setDone, St.setBg]) <;> (repeat' split) <;> simp_all [tot_set_eq _ _ _ _ _ hi, tot_ackWs_tok, tot_ackWs_clk, tot_ackWs_trlk, tokW, b2n_true, b2n_false, bgClk_run, bgClk_idle, bgClk_exited, bgClk_parked, bgClk_clearW, bgClk_afterCmd, bphClk, St.bg, onOk, onErr, selNext, afterSetErr, srAllW, srW] <;> (try omega)
+    cases b <;> (try simp only [St.setDone, St.setBg, ↓reduceIte, Bool.false_eq_true, Bool.and_false, Bool.and_true, Bool.false_and, Bool.true_and]) <;> (repeat' split) <;> simp_all [tot_set_eq _ _ _ _ _ hi, tot_ackWs_tok, tot_ackWs_clk, tot_ackWs_trlk, tokW, b2n_true, b2n_false, bgClk_run, bgClk_idle, bgClk_exited, bgClk_parked, bgClk_clearW, bgClk_afterCmd, bphClk, St.bg, onOk, onErr, selNext, afterSetErr, srAllW, srW] <;> (try omega)
   | putJournalOk _ i hi =>
     clear h4 hJ1 hJ2
     have l1 := le_tot tokW _ _ _ hi
-    (try simp only [St.setDone, St.setBg]) <;> (repeat' split) <;> simp_all [tot_set_eq _ _ _ _ _ hi, tot_ackWs_tok, tot_ackWs_clk, tot_ackWs_trlk, tokW, b2n_true, b2n_false, bgClk_run, bgClk_idle, bgClk_exited, bgClk_parked, bgClk_clearW, bgClk_afterCmd, bphClk, St.bg, onOk, onErr, selNext, afterSetErr, srAllW, srW] <;> (try omega)
+    (try simp only [St.setDone, St.setBg, ↓reduceIte, Bool.false_eq_true, Bool.and_false, Bool.and_true, Bool.false_and, Bool.true_and]) <;> (repeat' split) <;> simp_all [tot_set_eq _ _ _ _ _ hi, tot_ackWs_tok, tot_ackWs_clk, tot_ackWs_trlk, tokW, b2n_true, b2n_false, bgClk_run, bgClk_idle, bgClk_exited, bgClk_parked, bgClk_clearW, bgClk_afterCmd, bphClk, St.bg, onOk, onErr, selNext, afterSetErr, srAllW, srW] <;> (try omega)
   | putJournalFail _ i hi =>
     clear h4 hJ1 hJ2
     have l1 := le_tot tokW _ _ _ hi
-    (try simp only [St.setDone, St.setBg]) <;> (repeat' split) <;> simp_all [tot_set_eq _ _ _ _ _ hi, tot_ackWs_tok, tot_ackWs_clk, tot_ackWs_trlk, tokW, b2n_true, b2n_false, bgClk_run, bgClk_idle, bgClk_exited, bgClk_parked, bgClk_clearW, bgClk_afterCmd, bphClk, St.bg, onOk, onErr, selNext, afterSetErr, srAllW, srW] <;> (try omega)
+    (try simp only [St.setDone, St.setBg, ↓reduceIte, Bool.false_eq_true, Bool.and_false, Bool.and_true, Bool.false_and, Bool.true_and]) <;> (repeat' split) <;> simp_all [tot_set_eq _ _ _ _ _ hi, tot_ackWs_tok, tot_ackWs_clk, tot_ackWs_trlk, tokW, b2n_true, b2n_false, bgClk_run, bgClk_idle, bgClk_exited, bgClk_parked, bgClk_clearW, bgClk_afterCmd, bphClk, St.bg, onOk, onErr, selNext, afterSetErr, srAllW, srW] <;> (try omega)
   | putUnlock _ i r hi =>
     clear h4 hJ1 hJ2
     have l1 := le_tot tokW _ _ _ hi
-    cases r <;> (try simp only [St.setDone, St.setBg]) <;> (repeat' split) <;> simp_all [tot_set_eq _ _ _ _ _ hi, tot_ackWs_tok, tot_ackWs_clk, tot_ackWs_trlk, tokW, b2n_true, b2n_false, bgClk_run, bgClk_idle, bgClk_exited, bgClk_parked, bgClk_clearW, bgClk_afterCmd, bphClk, St.bg, onOk, onErr, selNext, afterSetErr, srAllW, srW] <;> (try omega)
+    cases r <;> (try simp only [St.setDone, St.setBg, ↓reduceIte, Bool.false_eq_true, Bool.and_false, Bool.and_true, Bool.false_and, Bool.true_and]) <;> (repeat' split) <;> simp_all [tot_set_eq _ _ _ _ _ hi, tot_ackWs_tok, tot_ackWs_clk, tot_ackWs_trlk, tokW, b2n_true, b2n_false, bgClk_run, bgClk_idle, bgClk_exited, bgClk_parked, bgClk_clearW, bgClk_afterCmd, bphClk, St.bg, onOk, onErr, selNext, afterSetErr, srAllW, srW] <;> (try omega)
   | cwSendGo _ i b site lg hi hb hro =>
     clear h4 hJ1 hJ2
     have l1 := le_tot tokW _ _ _ hi
-    cases site <;> cases b <;> cases lg <;> (try simp only [St.setDone, St.setBg]) <;> (repeat' split) <;> simp_all [tot_set_eq _ _ _ _ _ hi, tot_ackWs_tok, tot_ackWs_clk, tot_ackWs_trlk, tokW, b2n_true, b2n_false, bgClk_run, bgClk_idle, bgClk_exited, bgClk_parked, bgClk_clearW, bgClk_afterCmd, bphClk, St.bg, onOk, onErr, selNext, afterSetErr, srAllW, srW] <;> (try omega)
+    cases site <;> cases b <;> cases lg <;> (try simp only [St.setDone, St.setBg, ↓reduceIte, Bool.false_eq_true, Bool.and_false, Bool.and_true, Bool.false_and, Bool.true_and]) <;> (repeat' split) <;> simp_all [tot_set_eq _ _ _ _ _ hi, tot_ackWs_tok, tot_ackWs_clk, tot_ackWs_trlk, tokW, b2n_true, b2n_false, bgClk_run, bgClk_idle, bgClk_exited, bgClk_parked, bgClk_clearW, bgClk_afterCmd, bphClk, St.bg, onOk, onErr, selNext, afterSetErr, srAllW, srW] <;> (try omega)
   | cwSendRO _ i site lg hi hb hp hro =>
     clear h4 hJ1 hJ2
     have l1 := le_tot tokW _ _ _ hi
-    cases site <;> cases lg <;> (try simp only [St.setDone, St.setBg]) <;> (repeat' split) <;> simp_all [tot_set_eq _ _ _ _ _ hi, tot_ackWs_tok, tot_ackWs_clk, tot_ackWs_trlk, tokW, b2n_true, b2n_false, bgClk_run, bgClk_idle, bgClk_exited, bgClk_parked, bgClk_clearW, bgClk_afterCmd, bphClk, St.bg, onOk, onErr, selNext, afterSetErr, srAllW, srW] <;> (try omega)
+    cases site <;> cases lg <;> (try simp only [St.setDone, St.setBg, ↓reduceIte, Bool.false_eq_true, Bool.and_false, Bool.and_true, Bool.false_and, Bool.true_and]) <;> (repeat' split) <;> simp_all [tot_set_eq _ _ _ _ _ hi, tot_ackWs_tok, tot_ackWs_clk, tot_ackWs_trlk, tokW, b2n_true, b2n_false, bgClk_run, bgClk_idle, bgClk_exited, bgClk_parked, bgClk_clearW, bgClk_afterCmd, bphClk, St.bg, onOk, onErr, selNext, afterSetErr, srAllW, srW] <;> (try omega)
   | cwSendErr _ i b site lg hi he =>
     clear h4 hJ1 hJ2
     have l1 := le_tot tokW _ _ _ hi
-    cases site <;> cases b <;> cases lg <;> (try simp only [St.setDone, St.setBg]) <;> (repeat' split) <;> simp_all [tot_set_eq _ _ _ _ _ hi, tot_ackWs_tok, tot_ackWs_clk, tot_ackWs_trlk, tokW, b2n_true, b2n_false, bgClk_run, bgClk_idle, bgClk_exited, bgClk_parked, bgClk_clearW, bgClk_afterCmd, bphClk, St.bg, onOk, onErr, selNext, afterSetErr, srAllW, srW] <;> (try omega)
+    cases site <;> cases b <;> cases lg <;> (try simp only [St.setDone, St.setBg, ↓reduceIte, Bool.false_eq_true, Bool.and_false, Bool.and_true, Bool.false_and, Bool.true_and]) <;> (repeat' split) <;> simp_all [tot_set_eq _ _ _ _ _ hi, tot_ackWs_tok, tot_ackWs_clk, tot_ackWs_trlk, tokW, b2n_true, b2n_false, bgClk_run, bgClk_idle, bgClk_exited, bgClk_parked, bgClk_clearW, bgClk_afterCmd, bphClk, St.bg, onOk, onErr, selNext, afterSetErr, srAllW, srW] <;> (try omega)
   | cwAckErr _ i b site lg hi he =>
     clear h4 hJ1 hJ2
     have l1 := le_tot tokW _ _ _ hi
-    cases site <;> cases b <;> cases lg <;> (try simp only [St.setDone, St.setBg]) <;> (repeat' split) <;> simp_all [tot_set_eq _ _ _ _ _ hi, tot_ackWs_tok, tot_ackWs_clk, tot_ackWs_trlk, tokW, b2n_true, b2n_false, bgClk_run, bgClk_idle, bgClk_exited, bgClk_parked, bgClk_clearW, bgClk_afterCmd, bphClk, St.bg, onOk, onErr, selNext, afterSetErr, srAllW, srW] <;> (try omega)
+    cases site <;> cases b <;> cases lg <;> (try simp only [St.setDone, St.setBg, ↓reduceIte, Bool.false_eq_true, Bool.and_false, Bool.and_true, Bool.false_and, Bool.true_and]) <;> (repeat' split) <;> simp_all [tot_set_eq _ _ _ _ _ hi, tot_ackWs_tok, tot_ackWs_clk, tot_ackWs_trlk, tokW, b2n_true, b2n_false, bgClk_run, bgClk_idle, bgClk_exited, bgClk_parked, bgClk_clearW, bgClk_afterCmd, bphClk, St.bg, onOk, onErr, selNext, afterSetErr, srAllW, srW] <;> (try omega)
   | otxRotate _ i lg hi =>
     clear h4 hJ1 hJ2
     have l1 := le_tot tokW _ _ _ hi
-    cases lg <;> (try simp only [St.setDone, St.setBg]) <;> (repeat' split) <;> simp_all [tot_set_eq _ _ _ _ _ hi, tot_ackWs_tok, tot_ackWs_clk, tot_ackWs_trlk, tokW, b2n_true, b2n_false, bgClk_run, bgClk_idle, bgClk_exited, bgClk_parked, bgClk_clearW, bgClk_afterCmd, bphClk, St.bg, onOk, onErr, selNext, afterSetErr, srAllW, srW] <;> (try omega)
+    cases lg <;> (try simp only [St.setDone, St.setBg, ↓reduceIte, Bool.false_eq_true, Bool.and_false, Bool.and_true, Bool.false_and, Bool.true_and]) <;> (repeat' split) <;> simp_all [tot_set_eq _ _ _ _ _ hi, tot_ackWs_tok, tot_ackWs_clk, tot_ackWs_trlk, tokW, b2n_true, b2n_false, bgClk_run, bgClk_idle, bgClk_exited, bgClk_parked, bgClk_clearW, bgClk_afterCmd, bphClk, St.bg, onOk, onErr, selNext, afterSetErr, srAllW, srW] <;> (try omega)
   | otxNoRotate _ i lg hi =>
     clear h4 hJ1 hJ2
     have l1 := le_tot tokW _ _ _ hi
-    cases lg <;> (try simp only [St.setDone, St.setBg]) <;> (repeat' split) <;> simp_all [tot_set_eq _ _ _ _ _ hi, tot_ackWs_tok, tot_ackWs_clk, tot_ackWs_trlk, tokW, b2n_true, b2n_false, bgClk_run, bgClk_idle, bgClk_exited, bgClk_parked, bgClk_clearW, bgClk_afterCmd, bphClk, St.bg, onOk, onErr, selNext, afterSetErr, srAllW, srW] <;> (try omega)
+    cases lg <;> (try simp only [St.setDone, St.setBg, ↓reduceIte, Bool.false_eq_true, Bool.and_false, Bool.and_true, Bool.false_and, Bool.true_and]) <;> (repeat' split) <;> simp_all [tot_set_eq _ _ _ _ _ hi, tot_ackWs_tok, tot_ackWs_clk, tot_ackWs_trlk, tokW, b2n_true, b2n_false, bgClk_run, bgClk_idle, bgClk_exited, bgClk_parked, bgClk_clearW, bgClk_afterCmd, bphClk, St.bg, onOk, onErr, selNext, afterSetErr, srAllW, srW] <;> (try omega)
   | otxNewMemOk _ i lg hi =>
     clear h4 hJ1 hJ2
     have l1 := le_tot tokW _ _ _ hi
-    cases lg <;> (try simp only [St.setDone, St.setBg]) <;> (repeat' split) <;> simp_all [tot_set_eq _ _ _ _ _ hi, tot_ackWs_tok, tot_ackWs_clk, tot_ackWs_trlk, tokW, b2n_true, b2n_false, bgClk_run, bgClk_idle, bgClk_exited, bgClk_parked, bgClk_clearW, bgClk_afterCmd, bphClk, St.bg, onOk, onErr, selNext, afterSetErr, srAllW, srW] <;> (try omega)
+    cases lg <;> (try simp only [St.setDone, St.setBg, ↓reduceIte, Bool.false_eq_true, Bool.and_false, Bool.and_true, Bool.false_and, Bool.true_and]) <;> (repeat' split) <;> simp_all [tot_set_eq _ _ _ _ _ hi, tot_ackWs_tok, tot_ackWs_clk, tot_ackWs_trlk, tokW, b2n_true, b2n_false, bgClk_run, bgClk_idle, bgClk_exited, bgClk_parked, bgClk_clearW, bgClk_afterCmd, bphClk, St.bg, onOk, onErr, selNext, afterSetErr, srAllW, srW] <;> (try omega)
   | otxNewMemFail _ i lg hi =>
     clear h4 hJ1 hJ2
     have l1 := le_tot tokW _ _ _ hi
-    cases lg <;> (try simp only [St.setDone, St.setBg]) <;> (repeat' split) <;> simp_all [tot_set_eq _ _ _ _ _ hi, tot_ackWs_tok, tot_ackWs_clk, tot_ackWs_trlk, tokW, b2n_true, b2n_false, bgClk_run, bgClk_idle, bgClk_exited, bgClk_parked, bgClk_clearW, bgClk_afterCmd, bphClk, St.bg, onOk, onErr, selNext, afterSetErr, srAllW, srW] <;> (try omega)
+    cases lg <;> (try simp only [St.setDone, St.setBg, ↓reduceIte, Bool.false_eq_true, Bool.and_false, Bool.and_true, Bool.false_and, Bool.true_and]) <;> (repeat' split) <;> simp_all [tot_set_eq _ _ _ _ _ hi, tot_ackWs_tok, tot_ackWs_clk, tot_ackWs_trlk, tokW, b2n_true, b2n_false, bgClk_run, bgClk_idle, bgClk_exited, bgClk_parked, bgClk_clearW, bgClk_afterCmd, bphClk, St.bg, onOk, onErr, selNext, afterSetErr, srAllW, srW] <;> (try omega)
   | otxNoWaitComp _ i lg hi =>
     clear h4 hJ1 hJ2
     have l1 := le_tot tokW _ _ _ hi
-    cases lg <;> (try simp only [St.setDone, St.setBg]) <;> (repeat' split) <;> simp_all [tot_set_eq _ _ _ _ _ hi, tot_ackWs_tok, tot_ackWs_clk, tot_ackWs_trlk, tokW, b2n_true, b2n_false, bgClk_run, bgClk_idle, bgClk_exited, bgClk_parked, bgClk_clearW, bgClk_afterCmd, bphClk, St.bg, onOk, onErr, selNext, afterSetErr, srAllW, srW] <;> (try omega)
+    cases lg <;> (try simp only [St.setDone, St.setBg, ↓reduceIte, Bool.false_eq_true, Bool.and_false, Bool.and_true, Bool.false_and, Bool.true_and]) <;> (repeat' split) <;> simp_all [tot_set_eq _ _ _ _ _ hi, tot_ackWs_tok, tot_ackWs_clk, tot_ackWs_trlk, tokW, b2n_true, b2n_false, bgClk_run, bgClk_idle, bgClk_exited, bgClk_parked, bgClk_clearW, bgClk_afterCmd, bphClk, St.bg, onOk, onErr, selNext, afterSetErr, srAllW, srW] <;> (try omega)
   | otxWaitComp _ i lg hi =>
     clear h4 hJ1 hJ2
     have l1 := le_tot tokW _ _ _ hi
-    cases lg <;> (try simp only [St.setDone, St.setBg]) <;> (repeat' split) <;> simp_all [tot_set_eq _ _ _ _ _ hi, tot_ackWs_tok, tot_ackWs_clk, tot_ackWs_trlk, tokW, b2n_true, b2n_false, bgClk_run, bgClk_idle, bgClk_exited, bgClk_parked, bgClk_clearW, bgClk_afterCmd, bphClk, St.bg, onOk, onErr, selNext, afterSetErr, srAllW, srW] <;> (try omega)
+    cases lg <;> (try simp only [St.setDone, St.setBg, ↓reduceIte, Bool.false_eq_true, Bool.and_false, Bool.and_true, Bool.false_and, Bool.true_and]) <;> (repeat' split) <;> simp_all [tot_set_eq _ _ _ _ _ hi, tot_ackWs_tok, tot_ackWs_clk, tot_ackWs_trlk, tokW, b2n_true, b2n_false, bgClk_run, bgClk_idle, bgClk_exited, bgClk_parked, bgClk_clearW, bgClk_afterCmd, bphClk, St.bg, onOk, onErr, selNext, afterSetErr, srAllW, srW] <;> (try omega)
   | otxFail _ i lg hi =>
     clear h4 hJ1 hJ2
     have l1 := le_tot tokW _ _ _ hi
-    cases lg <;> (try simp only [St.setDone, St.setBg]) <;> (repeat' split) <;> simp_all [tot_set_eq _ _ _ _ _ hi, tot_ackWs_tok, tot_ackWs_clk, tot_ackWs_trlk, tokW, b2n_true, b2n_false, bgClk_run, bgClk_idle, bgClk_exited, bgClk_parked, bgClk_clearW, bgClk_afterCmd, bphClk, St.bg, onOk, onErr, selNext, afterSetErr, srAllW, srW] <;> (try omega)
+    cases lg <;> (try simp only [St.setDone, St.setBg, ↓reduceIte, Bool.false_eq_true, Bool.and_false, Bool.and_true, Bool.false_and, Bool.true_and]) <;> (repeat' split) <;> simp_all [tot_set_eq _ _ _ _ _ hi, tot_ackWs_tok, tot_ackWs_clk, tot_ackWs_trlk, tokW, b2n_true, b2n_false, bgClk_run, bgClk_idle, bgClk_exited, bgClk_parked, bgClk_clearW, bgClk_afterCmd, bphClk, St.bg, onOk, onErr, selNext, afterSetErr, srAllW, srW] <;> (try omega)
   | otxRel _ i lg hi =>
     clear h4 hJ1 hJ2
     have l1 := le_tot tokW _ _ _ hi
-    cases lg <;> (try simp only [St.setDone, St.setBg]) <;> (repeat' split) <;> simp_all [tot_set_eq _ _ _ _ _ hi, tot_ackWs_tok, tot_ackWs_clk, tot_ackWs_trlk, tokW, b2n_true, b2n_false, bgClk_run, bgClk_idle, bgClk_exited, bgClk_parked, bgClk_clearW, bgClk_afterCmd, bphClk, St.bg, onOk, onErr, selNext, afterSetErr, srAllW, srW] <;> (try omega)
+    cases lg <;> (try simp only [St.setDone, St.setBg, ↓reduceIte, Bool.false_eq_true, Bool.and_false, Bool.and_true, Bool.false_and, Bool.true_and]) <;> (repeat' split) <;> simp_all [tot_set_eq _ _ _ _ _ hi, tot_ackWs_tok, tot_ackWs_clk, tot_ackWs_trlk, tokW, b2n_true, b2n_false, bgClk_run, bgClk_idle, bgClk_exited, bgClk_parked, bgClk_clearW, bgClk_afterCmd, bphClk, St.bg, onOk, onErr, selNext, afterSetErr, srAllW, srW] <;> (try omega)
   | otxDone _ i lg hi =>
     clear h4 hJ1 hJ2
     have l1 := le_tot tokW _ _ _ hi
-    cases lg <;> (try simp only [St.setDone, St.setBg]) <;> (repeat' split) <;> simp_all [tot_set_eq _ _ _ _ _ hi, tot_ackWs_tok, tot_ackWs_clk, tot_ackWs_trlk, tokW, b2n_true, b2n_false, bgClk_run, bgClk_idle, bgClk_exited, bgClk_parked, bgClk_clearW, bgClk_afterCmd, bphClk, St.bg, onOk, onErr, selNext, afterSetErr, srAllW, srW] <;> (try omega)
+    cases lg <;> (try simp only [St.setDone, St.setBg, ↓reduceIte, Bool.false_eq_true, Bool.and_false, Bool.and_true, Bool.false_and, Bool.true_and]) <;> (repeat' split) <;> simp_all [tot_set_eq _ _ _ _ _ hi, tot_ackWs_tok, tot_ackWs_clk, tot_ackWs_trlk, tokW, b2n_true, b2n_false, bgClk_run, bgClk_idle, bgClk_exited, bgClk_parked, bgClk_clearW, bgClk_afterCmd, bphClk, St.bg, onOk, onErr, selNext, afterSetErr, srAllW, srW] <;> (try omega)
   | lgWriteOk _ i hi =>
     clear h4 hJ1 hJ2
     have l1 := le_tot tokW _ _ _ hi
-    (try simp only [St.setDone, St.setBg]) <;> (repeat' split) <;> simp_all [tot_set_eq _ _ _ _ _ hi, tot_ackWs_tok, tot_ackWs_clk, tot_ackWs_trlk, tokW, b2n_true, b2n_false, bgClk_run, bgClk_idle, bgClk_exited, bgClk_parked, bgClk_clearW, bgClk_afterCmd, bphClk, St.bg, onOk, onErr, selNext, afterSetErr, srAllW, srW] <;> (try omega)
+    (try simp only [St.setDone, St.setBg, ↓reduceIte, Bool.false_eq_true, Bool.and_false, Bool.and_true, Bool.false_and, Bool.true_and]) <;> (repeat' split) <;> simp_all [tot_set_eq _ _ _ _ _ hi, tot_ackWs_tok, tot_ackWs_clk, tot_ackWs_trlk, tokW, b2n_true, b2n_false, bgClk_run, bgClk_idle, bgClk_exited, bgClk_parked, bgClk_clearW, bgClk_afterCmd, bphClk, St.bg, onOk, onErr, selNext, afterSetErr, srAllW, srW] <;> (try omega)
   | lgWriteFail _ i hi =>
     clear h4 hJ1 hJ2
     have l1 := le_tot tokW _ _ _ hi
-    (try simp only [St.setDone, St.setBg]) <;> (repeat' split) <;> simp_all [tot_set_eq _ _ _ _ _ hi, tot_ackWs_tok, tot_ackWs_clk, tot_ackWs_trlk, tokW, b2n_true, b2n_false, bgClk_run, bgClk_idle, bgClk_exited, bgClk_parked, bgClk_clearW, bgClk_afterCmd, bphClk, St.bg, onOk, onErr, selNext, afterSetErr, srAllW, srW] <;> (try omega)
+    (try simp only [St.setDone, St.setBg, ↓reduceIte, Bool.false_eq_true, Bool.and_false, Bool.and_true, Bool.false_and, Bool.true_and]) <;> (repeat' split) <;> simp_all [tot_set_eq _ _ _ _ _ hi, tot_ackWs_tok, tot_ackWs_clk, tot_ackWs_trlk, tokW, b2n_true, b2n_false, bgClk_run, bgClk_idle, bgClk_exited, bgClk_parked, bgClk_clearW, bgClk_afterCmd, bphClk, St.bg, onOk, onErr, selNext, afterSetErr, srAllW, srW] <;> (try omega)
   | cmLockTr _ i lg hi hl =>
     clear h4 hJ1 hJ2
     have l1 := le_tot tokW _ _ _ hi
-    cases lg <;> (try simp only [St.setDone, St.setBg]) <;> (repeat' split) <;> simp_all [tot_set_eq _ _ _ _ _ hi, tot_ackWs_tok, tot_ackWs_clk, tot_ackWs_trlk, tokW, b2n_true, b2n_false, bgClk_run, bgClk_idle, bgClk_exited, bgClk_parked, bgClk_clearW, bgClk_afterCmd, bphClk, St.bg, onOk, onErr, selNext, afterSetErr, srAllW, srW] <;> (try omega)
+    cases lg <;> (try simp only [St.setDone, St.setBg, ↓reduceIte, Bool.false_eq_true, Bool.and_false, Bool.and_true, Bool.false_and, Bool.true_and]) <;> (repeat' split) <;> simp_all [tot_set_eq _ _ _ _ _ hi, tot_ackWs_tok, tot_ackWs_clk, tot_ackWs_trlk, tokW, b2n_true, b2n_false, bgClk_run, bgClk_idle, bgClk_exited, bgClk_parked, bgClk_clearW, bgClk_afterCmd, bphClk, St.bg, onOk, onErr, selNext, afterSetErr, srAllW, srW] <;> (try omega)
   | cmFlushOk _ i lg hi =>
     clear h4 hJ1 hJ2
     have l1 := le_tot tokW _ _ _ hi
-    cases lg <;> (try simp only [St.setDone, St.setBg]) <;> (repeat' split) <;> simp_all [tot_set_eq _ _ _ _ _ hi, tot_ackWs_tok, tot_ackWs_clk, tot_ackWs_trlk, tokW, b2n_true, b2n_false, bgClk_run, bgClk_idle, bgClk_exited, bgClk_parked, bgClk_clearW, bgClk_afterCmd, bphClk, St.bg, onOk, onErr, selNext, afterSetErr, srAllW, srW] <;> (try omega)
+    cases lg <;> (try simp only [St.setDone, St.setBg, ↓reduceIte, Bool.false_eq_true, Bool.and_false, Bool.and_true, Bool.false_and, Bool.true_and]) <;> (repeat' split) <;> simp_all [tot_set_eq _ _ _ _ _ hi, tot_ackWs_tok, tot_ackWs_clk, tot_ackWs_trlk, tokW, b2n_true, b2n_false, bgClk_run, bgClk_idle, bgClk_exited, bgClk_parked, bgClk_clearW, bgClk_afterCmd, bphClk, St.bg, onOk, onErr, selNext, afterSetErr, srAllW, srW] <;> (try omega)
   | cmFlushEmpty _ i lg hi =>
     clear h4 hJ1 hJ2
     have l1 := le_tot tokW _ _ _ hi
-    cases lg <;> (try simp only [St.setDone, St.setBg]) <;> (repeat' split) <;> simp_all [tot_set_eq _ _ _ _ _ hi, tot_ackWs_tok, tot_ackWs_clk, tot_ackWs_trlk, tokW, b2n_true, b2n_false, bgClk_run, bgClk_idle, bgClk_exited, bgClk_parked, bgClk_clearW, bgClk_afterCmd, bphClk, St.bg, onOk, onErr, selNext, afterSetErr, srAllW, srW] <;> (try omega)
+    cases lg <;> (try simp only [St.setDone, St.setBg, ↓reduceIte, Bool.false_eq_true, Bool.and_false, Bool.and_true, Bool.false_and, Bool.true_and]) <;> (repeat' split) <;> simp_all [tot_set_eq _ _ _ _ _ hi, tot_ackWs_tok, tot_ackWs_clk, tot_ackWs_trlk, tokW, b2n_true, b2n_false, bgClk_run, bgClk_idle, bgClk_exited, bgClk_parked, bgClk_clearW, bgClk_afterCmd, bphClk, St.bg, onOk, onErr, selNext, afterSetErr, srAllW, srW] <;> (try omega)
   | cmFlushFail _ i lg hi =>
     clear h4 hJ1 hJ2
     have l1 := le_tot tokW _ _ _ hi
-    cases lg <;> (try simp only [St.setDone, St.setBg]) <;> (repeat' split) <;> simp_all [tot_set_eq _ _ _ _ _ hi, tot_ackWs_tok, tot_ackWs_clk, tot_ackWs_trlk, tokW, b2n_true, b2n_false, bgClk_run, bgClk_idle, bgClk_exited, bgClk_parked, bgClk_clearW, bgClk_afterCmd, bphClk, St.bg, onOk, onErr, selNext, afterSetErr, srAllW, srW] <;> (try omega)
+    cases lg <;> (try simp only [St.setDone, St.setBg, ↓reduceIte, Bool.false_eq_true, Bool.and_false, Bool.and_true, Bool.false_and, Bool.true_and]) <;> (repeat' split) <;> simp_all [tot_set_eq _ _ _ _ _ hi, tot_ackWs_tok, tot_ackWs_clk, tot_ackWs_trlk, tokW, b2n_true, b2n_false, bgClk_run, bgClk_idle, bgClk_exited, bgClk_parked, bgClk_clearW, bgClk_afterCmd, bphClk, St.bg, onOk, onErr, selNext, afterSetErr, srAllW, srW] <;> (try omega)
   | cmLockClk _ i lg hi hl =>
     clear h4 hJ1 hJ2
     have l1 := le_tot tokW _ _ _ hi
-    cases lg <;> (try simp only [St.setDone, St.setBg]) <;> (repeat' split) <;> simp_all [tot_set_eq _ _ _ _ _ hi, tot_ackWs_tok, tot_ackWs_clk, tot_ackWs_trlk, tokW, b2n_true, b2n_false, bgClk_run, bgClk_idle, bgClk_exited, bgClk_parked, bgClk_clearW, bgClk_afterCmd, bphClk, St.bg, onOk, onErr, selNext, afterSetErr, srAllW, srW] <;> (try omega)
+    cases lg <;> (try simp only [St.setDone, St.setBg, ↓reduceIte, Bool.false_eq_true, Bool.and_false, Bool.and_true, Bool.false_and, Bool.true_and]) <;> (repeat' split) <;> simp_all [tot_set_eq _ _ _ _ _ hi, tot_ackWs_tok, tot_ackWs_clk, tot_ackWs_trlk, tokW, b2n_true, b2n_false, bgClk_run, bgClk_idle, bgClk_exited, bgClk_parked, bgClk_clearW, bgClk_afterCmd, bphClk, St.bg, onOk, onErr, selNext, afterSetErr, srAllW, srW] <;> (try omega)
   | cmTryOk _ i k lg hi =>
     clear h4 hJ1 hJ2
     have l1 := le_tot tokW _ _ _ hi
-    cases lg <;> (try simp only [St.setDone, St.setBg]) <;> (repeat' split) <;> simp_all [tot_set_eq _ _ _ _ _ hi, tot_ackWs_tok, tot_ackWs_clk, tot_ackWs_trlk, tokW, b2n_true, b2n_false, bgClk_run, bgClk_idle, bgClk_exited, bgClk_parked, bgClk_clearW, bgClk_afterCmd, bphClk, St.bg, onOk, onErr, selNext, afterSetErr, srAllW, srW] <;> (try omega)
+    cases lg <;> (try simp only [St.setDone, St.setBg, ↓reduceIte, Bool.false_eq_true, Bool.and_false, Bool.and_true, Bool.false_and, Bool.true_and]) <;> (repeat' split) <;> simp_all [tot_set_eq _ _ _ _ _ hi, tot_ackWs_tok, tot_ackWs_clk, tot_ackWs_trlk, tokW, b2n_true, b2n_false, bgClk_run, bgClk_idle, bgClk_exited, bgClk_parked, bgClk_clearW, bgClk_afterCmd, bphClk, St.bg, onOk, onErr, selNext, afterSetErr, srAllW, srW] <;> (try omega)
   | cmTryFail _ i k lg hi =>
     clear h4 hJ1 hJ2
     have l1 := le_tot tokW _ _ _ hi
-    cases lg <;> (try simp only [St.setDone, St.setBg]) <;> (repeat' split) <;> simp_all [tot_set_eq _ _ _ _ _ hi, tot_ackWs_tok, tot_ackWs_clk, tot_ackWs_trlk, tokW, b2n_true, b2n_false, bgClk_run, bgClk_idle, bgClk_exited, bgClk_parked, bgClk_clearW, bgClk_afterCmd, bphClk, St.bg, onOk, onErr, selNext, afterSetErr, srAllW, srW] <;> (try omega)
+    cases lg <;> (try simp only [St.setDone, St.setBg, ↓reduceIte, Bool.false_eq_true, Bool.and_false, Bool.and_true, Bool.false_and, Bool.true_and]) <;> (repeat' split) <;> simp_all [tot_set_eq _ _ _ _ _ hi, tot_ackWs_tok, tot_ackWs_clk, tot_ackWs_trlk, tokW, b2n_true, b2n_false, bgClk_run, bgClk_idle, bgClk_exited, bgClk_parked, bgClk_clearW, bgClk_afterCmd, bphClk, St.bg, onOk, onErr, selNext, afterSetErr, srAllW, srW] <;> (try omega)
   | cmSleepTimer _ i k lg hi =>
     clear h4 hJ1 hJ2
     have l1 := le_tot tokW _ _ _ hi
-    cases lg <;> (try simp only [St.setDone, St.setBg]) <;> (repeat' split) <;> simp_all [tot_set_eq _ _ _ _ _ hi, tot_ackWs_tok, tot_ackWs_clk, tot_ackWs_trlk, tokW, b2n_true, b2n_false, bgClk_run, bgClk_idle, bgClk_exited, bgClk_parked, bgClk_clearW, bgClk_afterCmd, bphClk, St.bg, onOk, onErr, selNext, afterSetErr, srAllW, srW] <;> (try omega)
+    cases lg <;> (try simp only [St.setDone, St.setBg, ↓reduceIte, Bool.false_eq_true, Bool.and_false, Bool.and_true, Bool.false_and, Bool.true_and]) <;> (repeat' split) <;> simp_all [tot_set_eq _ _ _ _ _ hi, tot_ackWs_tok, tot_ackWs_clk, tot_ackWs_trlk, tokW, b2n_true, b2n_false, bgClk_run, bgClk_idle, bgClk_exited, bgClk_parked, bgClk_clearW, bgClk_afterCmd, bphClk, St.bg, onOk, onErr, selNext, afterSetErr, srAllW, srW] <;> (try omega)
   | cmSleepClosed _ i k lg hi hc =>
     clear h4 hJ1 hJ2
     have l1 := le_tot tokW _ _ _ hi
-    cases lg <;> (try simp only [St.setDone, St.setBg]) <;> (repeat' split) <;> simp_all [tot_set_eq _ _ _ _ _ hi, tot_ackWs_tok, tot_ackWs_clk, tot_ackWs_trlk, tokW, b2n_true, b2n_false, bgClk_run, bgClk_idle, bgClk_exited, bgClk_parked, bgClk_clearW, bgClk_afterCmd, bphClk, St.bg, onOk, onErr, selNext, afterSetErr, srAllW, srW] <;> (try omega)
+    cases lg <;> (try simp only [St.setDone, St.setBg, ↓reduceIte, Bool.false_eq_true, Bool.and_false, Bool.and_true, Bool.false_and, Bool.true_and]) <;> (repeat' split) <;> simp_all [tot_set_eq _ _ _ _ _ hi, tot_ackWs_tok, tot_ackWs_clk, tot_ackWs_trlk, tokW, b2n_true, b2n_false, bgClk_run, bgClk_idle, bgClk_exited, bgClk_parked, bgClk_clearW, bgClk_afterCmd, bphClk, St.bg, onOk, onErr, selNext, afterSetErr, srAllW, srW] <;> (try omega)
   | cmFail3 _ i lg hi =>
     clear h4 hJ1 hJ2
     have l1 := le_tot tokW _ _ _ hi
-    cases lg <;> (try simp only [St.setDone, St.setBg]) <;> (repeat' split) <;> simp_all [tot_set_eq _ _ _ _ _ hi, tot_ackWs_tok, tot_ackWs_clk, tot_ackWs_trlk, tokW, b2n_true, b2n_false, bgClk_run, bgClk_idle, bgClk_exited, bgClk_parked, bgClk_clearW, bgClk_afterCmd, bphClk, St.bg, onOk, onErr, selNext, afterSetErr, srAllW, srW] <;> (try omega)
+    cases lg <;> (try simp only [St.setDone, St.setBg, ↓reduceIte, Bool.false_eq_true, Bool.and_false, Bool.and_true, Bool.false_and, Bool.true_and]) <;> (repeat' split) <;> simp_all [tot_set_eq _ _ _ _ _ hi, tot_ackWs_tok, tot_ackWs_clk, tot_ackWs_trlk, tokW, b2n_true, b2n_false, bgClk_run, bgClk_idle, bgClk_exited, bgClk_parked, bgClk_clearW, bgClk_afterCmd, bphClk, St.bg, onOk, onErr, selNext, afterSetErr, srAllW, srW] <;> (try omega)
   | cmAfterOk _ i lg hi =>
     clear h4 hJ1 hJ2
     have l1 := le_tot tokW _ _ _ hi
-    cases lg <;> (try simp only [St.setDone, St.setBg]) <;> (repeat' split) <;> simp_all [tot_set_eq _ _ _ _ _ hi, tot_ackWs_tok, tot_ackWs_clk, tot_ackWs_trlk, tokW, b2n_true, b2n_false, bgClk_run, bgClk_idle, bgClk_exited, bgClk_parked, bgClk_clearW, bgClk_afterCmd, bphClk, St.bg, onOk, onErr, selNext, afterSetErr, srAllW, srW] <;> (try omega)
+    cases lg <;> (try simp only [St.setDone, St.setBg, ↓reduceIte, Bool.false_eq_true, Bool.and_false, Bool.and_true, Bool.false_and, Bool.true_and]) <;> (repeat' split) <;> simp_all [tot_set_eq _ _ _ _ _ hi, tot_ackWs_tok, tot_ackWs_clk, tot_ackWs_trlk, tokW, b2n_true, b2n_false, bgClk_run, bgClk_idle, bgClk_exited, bgClk_parked, bgClk_clearW, bgClk_afterCmd, bphClk, St.bg, onOk, onErr, selNext, afterSetErr, srAllW, srW] <;> (try omega)
   | cmNoWaitComp _ i lg hi =>
     clear h4 hJ1 hJ2
     have l1 := le_tot tokW _ _ _ hi
-    cases lg <;> (try simp only [St.setDone, St.setBg]) <;> (repeat' split) <;> simp_all [tot_set_eq _ _ _ _ _ hi, tot_ackWs_tok, tot_ackWs_clk, tot_ackWs_trlk, tokW, b2n_true, b2n_false, bgClk_run, bgClk_idle, bgClk_exited, bgClk_parked, bgClk_clearW, bgClk_afterCmd, bphClk, St.bg, onOk, onErr, selNext, afterSetErr, srAllW, srW] <;> (try omega)
+    cases lg <;> (try simp only [St.setDone, St.setBg, ↓reduceIte, Bool.false_eq_true, Bool.and_false, Bool.and_true, Bool.false_and, Bool.true_and]) <;> (repeat' split) <;> simp_all [tot_set_eq _ _ _ _ _ hi, tot_ackWs_tok, tot_ackWs_clk, tot_ackWs_trlk, tokW, b2n_true, b2n_false, bgClk_run, bgClk_idle, bgClk_exited, bgClk_parked, bgClk_clearW, bgClk_afterCmd, bphClk, St.bg, onOk, onErr, selNext, afterSetErr, srAllW, srW] <;> (try omega)
   | cmWaitComp _ i lg hi =>
     clear h4 hJ1 hJ2
     have l1 := le_tot tokW _ _ _ hi
-    cases lg <;> (try simp only [St.setDone, St.setBg]) <;> (repeat' split) <;> simp_all [tot_set_eq _ _ _ _ _ hi, tot_ackWs_tok, tot_ackWs_clk, tot_ackWs_trlk, tokW, b2n_true, b2n_false, bgClk_run, bgClk_idle, bgClk_exited, bgClk_parked, bgClk_clearW, bgClk_afterCmd, bphClk, St.bg, onOk, onErr, selNext, afterSetErr, srAllW, srW] <;> (try omega)
+    cases lg <;> (try simp only [St.setDone, St.setBg, ↓reduceIte, Bool.false_eq_true, Bool.and_false, Bool.and_true, Bool.false_and, Bool.true_and]) <;> (repeat' split) <;> simp_all [tot_set_eq _ _ _ _ _ hi, tot_ackWs_tok, tot_ackWs_clk, tot_ackWs_trlk, tokW, b2n_true, b2n_false, bgClk_run, bgClk_idle, bgClk_exited, bgClk_parked, bgClk_clearW, bgClk_afterCmd, bphClk, St.bg, onOk, onErr, selNext, afterSetErr, srAllW, srW] <;> (try omega)
   | cmDone _ i lg hi =>
     clear h4 hJ1 hJ2
     have l1 := le_tot tokW _ _ _ hi
-    cases lg <;> (try simp only [St.setDone, St.setBg]) <;> (repeat' split) <;> simp_all [tot_set_eq _ _ _ _ _ hi, tot_ackWs_tok, tot_ackWs_clk, tot_ackWs_trlk, tokW, b2n_true, b2n_false, bgClk_run, bgClk_idle, bgClk_exited, bgClk_parked, bgClk_clearW, bgClk_afterCmd, bphClk, St.bg, onOk, onErr, selNext, afterSetErr, srAllW, srW] <;> (try omega)
+    cases lg <;> (try simp only [St.setDone, St.setBg, ↓reduceIte, Bool.false_eq_true, Bool.and_false, Bool.and_true, Bool.false_and, Bool.true_and]) <;> (repeat' split) <;> simp_all [tot_set_eq _ _ _ _ _ hi, tot_ackWs_tok, tot_ackWs_clk, tot_ackWs_trlk, tokW, b2n_true, b2n_false, bgClk_run, bgClk_idle, bgClk_exited, bgClk_parked, bgClk_clearW, bgClk_afterCmd, bphClk, St.bg, onOk, onErr, selNext, afterSetErr, srAllW, srW] <;> (try omega)
   | cmRet _ i ok lg hi =>
     clear h4 hJ1 hJ2
     have l1 := le_tot tokW _ _ _ hi
-    cases ok <;> cases lg <;> (try simp only [St.setDone, St.setBg]) <;> (repeat' split) <;> simp_all [tot_set_eq _ _ _ _ _ hi, tot_ackWs_tok, tot_ackWs_clk, tot_ackWs_trlk, tokW, b2n_true, b2n_false, bgClk_run, bgClk_idle, bgClk_exited, bgClk_parked, bgClk_clearW, bgClk_afterCmd, bphClk, St.bg, onOk, onErr, selNext, afterSetErr, srAllW, srW] <;> (try omega)
+    cases ok <;> cases lg <;> (try simp only [St.setDone, St.setBg, ↓reduceIte, Bool.false_eq_true, Bool.and_false, Bool.and_true, Bool.false_and, Bool.true_and]) <;> (repeat' split) <;> simp_all [tot_set_eq _ _ _ _ _ hi, tot_ackWs_tok, tot_ackWs_clk, tot_ackWs_trlk, tokW, b2n_true, b2n_false, bgClk_run, bgClk_idle, bgClk_exited, bgClk_parked, bgClk_clearW, bgClk_afterCmd, bphClk, St.bg, onOk, onErr, selNext, afterSetErr, srAllW, srW] <;> (try omega)
   | dcLockTr _ i lg hi hl =>
     clear h4 hJ1 hJ2
     have l1 := le_tot tokW _ _ _ hi
-    cases lg <;> (try simp only [St.setDone, St.setBg]) <;> (repeat' split) <;> simp_all [tot_set_eq _ _ _ _ _ hi, tot_ackWs_tok, tot_ackWs_clk, tot_ackWs_trlk, tokW, b2n_true, b2n_false, bgClk_run, bgClk_idle, bgClk_exited, bgClk_parked, bgClk_clearW, bgClk_afterCmd, bphClk, St.bg, onOk, onErr, selNext, afterSetErr, srAllW, srW] <;> (try omega)
+    cases lg <;> (try simp only [St.setDone, St.setBg, ↓reduceIte, Bool.false_eq_true, Bool.and_false, Bool.and_true, Bool.false_and, Bool.true_and]) <;> (repeat' split) <;> simp_all [tot_set_eq _ _ _ _ _ hi, tot_ackWs_tok, tot_ackWs_clk, tot_ackWs_trlk, tokW, b2n_true, b2n_false, bgClk_run, bgClk_idle, bgClk_exited, bgClk_parked, bgClk_clearW, bgClk_afterCmd, bphClk, St.bg, onOk, onErr, selNext, afterSetErr, srAllW, srW] <;> (try omega)
   | dcBody _ i lg hi =>
     clear h4 hJ1 hJ2
     have l1 := le_tot tokW _ _ _ hi
-    cases lg <;> (try simp only [St.setDone, St.setBg]) <;> (repeat' split) <;> simp_all [tot_set_eq _ _ _ _ _ hi, tot_ackWs_tok, tot_ackWs_clk, tot_ackWs_trlk, tokW, b2n_true, b2n_false, bgClk_run, bgClk_idle, bgClk_exited, bgClk_parked, bgClk_clearW, bgClk_afterCmd, bphClk, St.bg, onOk, onErr, selNext, afterSetErr, srAllW, srW] <;> (try omega)
+    cases lg <;> (try simp only [St.setDone, St.setBg, ↓reduceIte, Bool.false_eq_true, Bool.and_false, Bool.and_true, Bool.false_and, Bool.true_and]) <;> (repeat' split) <;> simp_all [tot_set_eq _ _ _ _ _ hi, tot_ackWs_tok, tot_ackWs_clk, tot_ackWs_trlk, tokW, b2n_true, b2n_false, bgClk_run, bgClk_idle, bgClk_exited, bgClk_parked, bgClk_clearW, bgClk_afterCmd, bphClk, St.bg, onOk, onErr, selNext, afterSetErr, srAllW, srW] <;> (try omega)
   | crNoOverlap _ i hi =>
     clear h4 hJ1 hJ2
     have l1 := le_tot tokW _ _ _ hi
-    (try simp only [St.setDone, St.setBg]) <;> (repeat' split) <;> simp_all [tot_set_eq _ _ _ _ _ hi, tot_ackWs_tok, tot_ackWs_clk, tot_ackWs_trlk, tokW, b2n_true, b2n_false, bgClk_run, bgClk_idle, bgClk_exited, bgClk_parked, bgClk_clearW, bgClk_afterCmd, bphClk, St.bg, onOk, onErr, selNext, afterSetErr, srAllW, srW] <;> (try omega)
+    (try simp only [St.setDone, St.setBg, ↓reduceIte, Bool.false_eq_true, Bool.and_false, Bool.and_true, Bool.false_and, Bool.true_and]) <;> (repeat' split) <;> simp_all [tot_set_eq _ _ _ _ _ hi, tot_ackWs_tok, tot_ackWs_clk, tot_ackWs_trlk, tokW, b2n_true, b2n_false, bgClk_run, bgClk_idle, bgClk_exited, bgClk_parked, bgClk_clearW, bgClk_afterCmd, bphClk, St.bg, onOk, onErr, selNext, afterSetErr, srAllW, srW] <;> (try omega)
   | crOverlap _ i hi =>
     clear h4 hJ1 hJ2
     have l1 := le_tot tokW _ _ _ hi
-    (try simp only [St.setDone, St.setBg]) <;> (repeat' split) <;> simp_all [tot_set_eq _ _ _ _ _ hi, tot_ackWs_tok, tot_ackWs_clk, tot_ackWs_trlk, tokW, b2n_true, b2n_false, bgClk_run, bgClk_idle, bgClk_exited, bgClk_parked, bgClk_clearW, bgClk_afterCmd, bphClk, St.bg, onOk, onErr, selNext, afterSetErr, srAllW, srW] <;> (try omega)
+    (try simp only [St.setDone, St.setBg, ↓reduceIte, Bool.false_eq_true, Bool.and_false, Bool.and_true, Bool.false_and, Bool.true_and]) <;> (repeat' split) <;> simp_all [tot_set_eq _ _ _ _ _ hi, tot_ackWs_tok, tot_ackWs_clk, tot_ackWs_trlk, tokW, b2n_true, b2n_false, bgClk_run, bgClk_idle, bgClk_exited, bgClk_parked, bgClk_clearW, bgClk_afterCmd, bphClk, St.bg, onOk, onErr, selNext, afterSetErr, srAllW, srW] <;> (try omega)
   | crNewMemOk _ i hi =>
     clear h4 hJ1 hJ2
     have l1 := le_tot tokW _ _ _ hi
-    (try simp only [St.setDone, St.setBg]) <;> (repeat' split) <;> simp_all [tot_set_eq _ _ _ _ _ hi, tot_ackWs_tok, tot_ackWs_clk, tot_ackWs_trlk, tokW, b2n_true, b2n_false, bgClk_run, bgClk_idle, bgClk_exited, bgClk_parked, bgClk_clearW, bgClk_afterCmd, bphClk, St.bg, onOk, onErr, selNext, afterSetErr, srAllW, srW] <;> (try omega)
+    (try simp only [St.setDone, St.setBg, ↓reduceIte, Bool.false_eq_true, Bool.and_false, Bool.and_true, Bool.false_and, Bool.true_and]) <;> (repeat' split) <;> simp_all [tot_set_eq _ _ _ _ _ hi, tot_ackWs_tok, tot_ackWs_clk, tot_ackWs_trlk, tokW, b2n_true, b2n_false, bgClk_run, bgClk_idle, bgClk_exited, bgClk_parked, bgClk_clearW, bgClk_afterCmd, bphClk, St.bg, onOk, onErr, selNext, afterSetErr, srAllW, srW] <;> (try omega)
   | crNewMemFail _ i hi =>
     clear h4 hJ1 hJ2
     have l1 := le_tot tokW _ _ _ hi
-    (try simp only [St.setDone, St.setBg]) <;> (repeat' split) <;> simp_all [tot_set_eq _ _ _ _ _ hi, tot_ackWs_tok, tot_ackWs_clk, tot_ackWs_trlk, tokW, b2n_true, b2n_false, bgClk_run, bgClk_idle, bgClk_exited, bgClk_parked, bgClk_clearW, bgClk_afterCmd, bphClk, St.bg, onOk, onErr, selNext, afterSetErr, srAllW, srW] <;> (try omega)
+    (try simp only [St.setDone, St.setBg, ↓reduceIte, Bool.false_eq_true, Bool.and_false, Bool.and_true, Bool.false_and, Bool.true_and]) <;> (repeat' split) <;> simp_all [tot_set_eq _ _ _ _ _ hi, tot_ackWs_tok, tot_ackWs_clk, tot_ackWs_trlk, tokW, b2n_true, b2n_false, bgClk_run, bgClk_idle, bgClk_exited, bgClk_parked, bgClk_clearW, bgClk_afterCmd, bphClk, St.bg, onOk, onErr, selNext, afterSetErr, srAllW, srW] <;> (try omega)
   | crRelM _ i hi =>
     clear h4 hJ1 hJ2
     have l1 := le_tot tokW _ _ _ hi
-    (try simp only [St.setDone, St.setBg]) <;> (repeat' split) <;> simp_all [tot_set_eq _ _ _ _ _ hi, tot_ackWs_tok, tot_ackWs_clk, tot_ackWs_trlk, tokW, b2n_true, b2n_false, bgClk_run, bgClk_idle, bgClk_exited, bgClk_parked, bgClk_clearW, bgClk_afterCmd, bphClk, St.bg, onOk, onErr, selNext, afterSetErr, srAllW, srW] <;> (try omega)
+    (try simp only [St.setDone, St.setBg, ↓reduceIte, Bool.false_eq_true, Bool.and_false, Bool.and_true, Bool.false_and, Bool.true_and]) <;> (repeat' split) <;> simp_all [tot_set_eq _ _ _ _ _ hi, tot_ackWs_tok, tot_ackWs_clk, tot_ackWs_trlk, tokW, b2n_true, b2n_false, bgClk_run, bgClk_idle, bgClk_exited, bgClk_parked, bgClk_clearW, bgClk_afterCmd, bphClk, St.bg, onOk, onErr, selNext, afterSetErr, srAllW, srW] <;> (try omega)
   | crRelOk _ i hi =>
     clear h4 hJ1 hJ2
     have l1 := le_tot tokW _ _ _ hi
-    (try simp only [St.setDone, St.setBg]) <;> (repeat' split) <;> simp_all [tot_set_eq _ _ _ _ _ hi, tot_ackWs_tok, tot_ackWs_clk, tot_ackWs_trlk, tokW, b2n_true, b2n_false, bgClk_run, bgClk_idle, bgClk_exited, bgClk_parked, bgClk_clearW, bgClk_afterCmd, bphClk, St.bg, onOk, onErr, selNext, afterSetErr, srAllW, srW] <;> (try omega)
+    (try simp only [St.setDone, St.setBg, ↓reduceIte, Bool.false_eq_true, Bool.and_false, Bool.and_true, Bool.false_and, Bool.true_and]) <;> (repeat' split) <;> simp_all [tot_set_eq _ _ _ _ _ hi, tot_ackWs_tok, tot_ackWs_clk, tot_ackWs_trlk, tokW, b2n_true, b2n_false, bgClk_run, bgClk_idle, bgClk_exited, bgClk_parked, bgClk_clearW, bgClk_afterCmd, bphClk, St.bg, onOk, onErr, selNext, afterSetErr, srAllW, srW] <;> (try omega)
   | crRelFail _ i hi =>
     clear h4 hJ1 hJ2
     have l1 := le_tot tokW _ _ _ hi
-    (try simp only [St.setDone, St.setBg]) <;> (repeat' split) <;> simp_all [tot_set_eq _ _ _ _ _ hi, tot_ackWs_tok, tot_ackWs_clk, tot_ackWs_trlk, tokW, b2n_true, b2n_false, bgClk_run, bgClk_idle, bgClk_exited, bgClk_parked, bgClk_clearW, bgClk_afterCmd, bphClk, St.bg, onOk, onErr, selNext, afterSetErr, srAllW, srW] <;> (try omega)
+    (try simp only [St.setDone, St.setBg, ↓reduceIte, Bool.false_eq_true, Bool.and_false, Bool.and_true, Bool.false_and, Bool.true_and]) <;> (repeat' split) <;> simp_all [tot_set_eq _ _ _ _ _ hi, tot_ackWs_tok, tot_ackWs_clk, tot_ackWs_trlk, tokW, b2n_true, b2n_false, bgClk_run, bgClk_idle, bgClk_exited, bgClk_parked, bgClk_clearW, bgClk_afterCmd, bphClk, St.bg, onOk, onErr, selNext, afterSetErr, srAllW, srW] <;> (try omega)
   | srSend _ i hi he =>
     clear h4 hJ1 hJ2
     have l1 := le_tot tokW _ _ _ hi
-    (try simp only [St.setDone, St.setBg]) <;> (repeat' split) <;> simp_all [tot_set_eq _ _ _ _ _ hi, tot_ackWs_tok, tot_ackWs_clk, tot_ackWs_trlk, tokW, b2n_true, b2n_false, bgClk_run, bgClk_idle, bgClk_exited, bgClk_parked, bgClk_clearW, bgClk_afterCmd, bphClk, St.bg, onOk, onErr, selNext, afterSetErr, srAllW, srW] <;> (try omega)
+    (try simp only [St.setDone, St.setBg, ↓reduceIte, Bool.false_eq_true, Bool.and_false, Bool.and_true, Bool.false_and, Bool.true_and]) <;> (repeat' split) <;> simp_all [tot_set_eq _ _ _ _ _ hi, tot_ackWs_tok, tot_ackWs_clk, tot_ackWs_trlk, tokW, b2n_true, b2n_false, bgClk_run, bgClk_idle, bgClk_exited, bgClk_parked, bgClk_clearW, bgClk_afterCmd, bphClk, St.bg, onOk, onErr, selNext, afterSetErr, srAllW, srW] <;> (try omega)
   | srPerErr _ i hi he =>
-    clear h4 hJ1 hJ2
-    have l1 := le_tot tokW _ _ _ hi
-    (try simp only [St.setDone, St.setBg]) <;> (repeat' split) <;> simp_all [tot_set_eq _ _ _ _ _ hi, tot_ackWs_tok, tot_ackWs_clk, tot_ackWs_trlk, tokW, b2n_true, b2n_false, bgClk_run, bgClk_idle, bgClk_exited, bgClk_parked, bgClk_clearW, bgClk_afterCmd, bphClk, St.bg, onOk, onErr, selNext, afterSetErr, srAllW, srW] <;> (try omega)
+    have lw := le_tot srW _ _ _ hi
+    have hj := hJ1 (by simp only [srW] at lw; omega)
+    clear h4
+    (try simp only [St.setDone, St.setBg, ↓reduceIte, Bool.false_eq_true, Bool.and_false, Bool.and_true, Bool.false_and, Bool.true_and]) <;> (repeat' split) <;> simp_all [tot_set_eq _ _ _ _ _ hi, tot_ackWs_tok, tot_ackWs_clk, tot_ackWs_trlk, tokW, b2n_true, b2n_false, bgClk_run, bgClk_idle, bgClk_exited, bgClk_parked, bgClk_clearW, bgClk_afterCmd, bphClk, St.bg, onOk, onErr, selNext, afterSetErr, srAllW, srW] <;> (try omega)
   | srClosed _ i hi hc =>
     have ls := le_tot srAllW _ _ _ hi
     have lw := le_tot srW _ _ _ hi
-    have hj := hJ1 hc (by simp only [srW] at lw; omega)
-    rcases h4 with h4 | ⟨_, h4⟩ <;> (try simp only [St.setDone, St.setBg]) <;> (repeat' split) <;> simp_all [tot_set_eq _ _ _ _ _ hi, tot_ackWs_tok, tot_ackWs_clk, tot_ackWs_trlk, tokW, b2n_true, b2n_false, bgClk_run, bgClk_idle, bgClk_exited, bgClk_parked, bgClk_clearW, bgClk_afterCmd, bphClk, St.bg, onOk, onErr, selNext, afterSetErr, srAllW, srW] <;> (try omega)
+    have hj := hJ1 (by simp only [srW] at lw; omega)
+    rcases h4 with h4 | ⟨_, h4⟩ <;> (try simp only [St.setDone, St.setBg, ↓reduceIte, Bool.false_eq_true, Bool.and_false, Bool.and_true, Bool.false_and, Bool.true_and]) <;> (repeat' split) <;> simp_all [tot_set_eq _ _ _ _ _ hi, tot_ackWs_tok, tot_ackWs_clk, tot_ackWs_trlk, tokW, b2n_true, b2n_false, bgClk_run, bgClk_idle, bgClk_exited, bgClk_parked, bgClk_clearW, bgClk_afterCmd, bphClk, St.bg, onOk, onErr, selNext, afterSetErr, srAllW, srW] <;> (try omega)
   | clCheckTr _ i hi =>
     clear h4 hJ1 hJ2
     have l1 := le_tot tokW _ _ _ hi
-    (try simp only [St.setDone, St.setBg]) <;> (repeat' split) <;> simp_all [tot_set_eq _ _ _ _ _ hi, tot_ackWs_tok, tot_ackWs_clk, tot_ackWs_trlk, tokW, b2n_true, b2n_false, bgClk_run, bgClk_idle, bgClk_exited, bgClk_parked, bgClk_clearW, bgClk_afterCmd, bphClk, St.bg, onOk, onErr, selNext, afterSetErr, srAllW, srW] <;> (try omega)
+    (try simp only [St.setDone, St.setBg, ↓reduceIte, Bool.false_eq_true, Bool.and_false, Bool.and_true, Bool.false_and, Bool.true_and]) <;> (repeat' split) <;> simp_all [tot_set_eq _ _ _ _ _ hi, tot_ackWs_tok, tot_ackWs_clk, tot_ackWs_trlk, tokW, b2n_true, b2n_false, bgClk_run, bgClk_idle, bgClk_exited, bgClk_parked, bgClk_clearW, bgClk_afterCmd, bphClk, St.bg, onOk, onErr, selNext, afterSetErr, srAllW, srW] <;> (try omega)
   | clLockTr _ i hi hl =>
     clear h4 hJ1 hJ2
     have l1 := le_tot tokW _ _ _ hi
-    (try simp only [St.setDone, St.setBg]) <;> (repeat' split) <;> simp_all [tot_set_eq _ _ _ _ _ hi, tot_ackWs_tok, tot_ackWs_clk, tot_ackWs_trlk, tokW, b2n_true, b2n_false, bgClk_run, bgClk_idle, bgClk_exited, bgClk_parked, bgClk_clearW, bgClk_afterCmd, bphClk, St.bg, onOk, onErr, selNext, afterSetErr, srAllW, srW] <;> (try omega)
+    (try simp only [St.setDone, St.setBg, ↓reduceIte, Bool.false_eq_true, Bool.and_false, Bool.and_true, Bool.false_and, Bool.true_and]) <;> (repeat' split) <;> simp_all [tot_set_eq _ _ _ _ _ hi, tot_ackWs_tok, tot_ackWs_clk, tot_ackWs_trlk, tokW, b2n_true, b2n_false, bgClk_run, bgClk_idle, bgClk_exited, bgClk_parked, bgClk_clearW, bgClk_afterCmd, bphClk, St.bg, onOk, onErr, selNext, afterSetErr, srAllW, srW] <;> (try omega)
   | clBody _ i hi =>
     clear h4 hJ1 hJ2
     have l1 := le_tot tokW _ _ _ hi
-    (try simp only [St.setDone, St.setBg]) <;> (repeat' split) <;> simp_all [tot_set_eq _ _ _ _ _ hi, tot_ackWs_tok, tot_ackWs_clk, tot_ackWs_trlk, tokW, b2n_true, b2n_false, bgClk_run, bgClk_idle, bgClk_exited, bgClk_parked, bgClk_clearW, bgClk_afterCmd, bphClk, St.bg, onOk, onErr, selNext, afterSetErr, srAllW, srW] <;> (try omega)
+    (try simp only [St.setDone, St.setBg, ↓reduceIte, Bool.false_eq_true, Bool.and_false, Bool.and_true, Bool.false_and, Bool.true_and]) <;> (repeat' split) <;> simp_all [tot_set_eq _ _ _ _ _ hi, tot_ackWs_tok, tot_ackWs_clk, tot_ackWs_trlk, tokW, b2n_true, b2n_false, bgClk_run, bgClk_idle, bgClk_exited, bgClk_parked, bgClk_clearW, bgClk_afterCmd, bphClk, St.bg, onOk, onErr, selNext, afterSetErr, srAllW, srW] <;> (try omega)
   | clAcq _ i hi ht =>
     clear h4 hJ1 hJ2
     have l1 := le_tot tokW _ _ _ hi
-    (try simp only [St.setDone, St.setBg]) <;> (repeat' split) <;> simp_all [tot_set_eq _ _ _ _ _ hi, tot_ackWs_tok, tot_ackWs_clk, tot_ackWs_trlk, tokW, b2n_true, b2n_false, bgClk_run, bgClk_idle, bgClk_exited, bgClk_parked, bgClk_clearW, bgClk_afterCmd, bphClk, St.bg, onOk, onErr, selNext, afterSetErr, srAllW, srW] <;> (try omega)
+    (try simp only [St.setDone, St.setBg, ↓reduceIte, Bool.false_eq_true, Bool.and_false, Bool.and_true, Bool.false_and, Bool.true_and]) <;> (repeat' split) <;> simp_all [tot_set_eq _ _ _ _ _ hi, tot_ackWs_tok, tot_ackWs_clk, tot_ackWs_trlk, tokW, b2n_true, b2n_false, bgClk_run, bgClk_idle, bgClk_exited, bgClk_parked, bgClk_clearW, bgClk_afterCmd, bphClk, St.bg, onOk, onErr, selNext, afterSetErr, srAllW, srW] <;> (try omega)
   | clWait _ i hi hm ht =>
     clear h4 hJ1 hJ2
     have l1 := le_tot tokW _ _ _ hi
-    (try simp only [St.setDone, St.setBg]) <;> (repeat' split) <;> simp_all [tot_set_eq _ _ _ _ _ hi, tot_ackWs_tok, tot_ackWs_clk, tot_ackWs_trlk, tokW, b2n_true, b2n_false, bgClk_run, bgClk_idle, bgClk_exited, bgClk_parked, bgClk_clearW, bgClk_afterCmd, bphClk, St.bg, onOk, onErr, selNext, afterSetErr, srAllW, srW] <;> (try omega)
+    (try simp only [St.setDone, St.setBg, ↓reduceIte, Bool.false_eq_true, Bool.and_false, Bool.and_true, Bool.false_and, Bool.true_and]) <;> (repeat' split) <;> simp_all [tot_set_eq _ _ _ _ _ hi, tot_ackWs_tok, tot_ackWs_clk, tot_ackWs_trlk, tokW, b2n_true, b2n_false, bgClk_run, bgClk_idle, bgClk_exited, bgClk_parked, bgClk_clearW, bgClk_afterCmd, bphClk, St.bg, onOk, onErr, selNext, afterSetErr, srAllW, srW] <;> (try omega)
   | ehAcquire _ he ht =>
     clear h4 hJ1 hJ2
-    (try simp only [St.setDone, St.setBg]) <;> (repeat' split) <;> simp_all [tot_ackWs_tok, tot_ackWs_clk, tot_ackWs_trlk, tokW, b2n_true, b2n_false, bgClk_run, bgClk_idle, bgClk_exited, bgClk_parked, bgClk_clearW, bgClk_afterCmd, bphClk, St.bg, onOk, onErr, selNext, afterSetErr, srAllW, srW] <;> (try omega)
+    (try simp only [St.setDone, St.setBg, ↓reduceIte, Bool.false_eq_true, Bool.and_false, Bool.and_true, Bool.false_and, Bool.true_and]) <;> (repeat' split) <;> simp_all [tot_ackWs_tok, tot_ackWs_clk, tot_ackWs_trlk, tokW, b2n_true, b2n_false, bgClk_run, bgClk_idle, bgClk_exited, bgClk_parked, bgClk_clearW, bgClk_afterCmd, bphClk, St.bg, onOk, onErr, selNext, afterSetErr, srAllW, srW] <;> (try omega)
   | ehClose _ he hc =>
     clear h4 hJ1 hJ2
-    (try simp only [St.setDone, St.setBg]) <;> (repeat' split) <;> simp_all [tot_ackWs_tok, tot_ackWs_clk, tot_ackWs_trlk, tokW, b2n_true, b2n_false, bgClk_run, bgClk_idle, bgClk_exited, bgClk_parked, bgClk_clearW, bgClk_afterCmd, bphClk, St.bg, onOk, onErr, selNext, afterSetErr, srAllW, srW] <;> (try omega)
+    (try simp only [St.setDone, St.setBg, ↓reduceIte, Bool.false_eq_true, Bool.and_false, Bool.and_true, Bool.false_and, Bool.true_and]) <;> (repeat' split) <;> simp_all [tot_ackWs_tok, tot_ackWs_clk, tot_ackWs_trlk, tokW, b2n_true, b2n_false, bgClk_run, bgClk_idle, bgClk_exited, bgClk_parked, bgClk_clearW, bgClk_afterCmd, bphClk, St.bg, onOk, onErr, selNext, afterSetErr, srAllW, srW] <;> (try omega)
   | ehTake _ he ht =>
     have hj := hJ2 he
     simp_all [tot_ackWs_tok, tot_ackWs_clk, tot_ackWs_trlk, tokW, b2n_true, b2n_false, bgClk_run, bgClk_idle, bgClk_exited, bgClk_parked, bgClk_clearW, bgClk_afterCmd, bphClk, St.bg, onOk, onErr, selNext, afterSetErr, srAllW, srW] <;> (try omega)
   | bgExitIdle _ b hb hc =>
     clear h4 hJ1 hJ2
-    cases b <;> (try simp only [St.setDone, St.setBg]) <;> (repeat' split) <;> simp_all [tot_ackWs_tok, tot_ackWs_clk, tot_ackWs_trlk, tokW, b2n_true, b2n_false, bgClk_run, bgClk_idle, bgClk_exited, bgClk_parked, bgClk_clearW, bgClk_afterCmd, bphClk, St.bg, onOk, onErr, selNext, afterSetErr, srAllW, srW] <;> (try omega)
+    cases b <;> (try simp only [St.setDone, St.setBg, ↓reduceIte, Bool.false_eq_true, Bool.and_false, Bool.and_true, Bool.false_and, Bool.true_and]) <;> (repeat' split) <;> simp_all [tot_ackWs_tok, tot_ackWs_clk, tot_ackWs_trlk, tokW, b2n_true, b2n_false, bgClk_run, bgClk_idle, bgClk_exited, bgClk_parked, bgClk_clearW, bgClk_afterCmd, bphClk, St.bg, onOk, onErr, selNext, afterSetErr, srAllW, srW] <;> (try omega)
   | bgExitParked _ hb hc =>
     clear h4 hJ1 hJ2
-    (try simp only [St.setDone, St.setBg]) <;> (repeat' split) <;> simp_all [tot_ackWs_tok, tot_ackWs_clk, tot_ackWs_trlk, tokW, b2n_true, b2n_false, bgClk_run, bgClk_idle, bgClk_exited, bgClk_parked, bgClk_clearW, bgClk_afterCmd, bphClk, St.bg, onOk, onErr, selNext, afterSetErr, srAllW, srW] <;> (try omega)
+    (try simp only [St.setDone, St.setBg, ↓reduceIte, Bool.false_eq_true, Bool.and_false, Bool.and_true, Bool.false_and, Bool.true_and]) <;> (repeat' split) <;> simp_all [tot_ackWs_tok, tot_ackWs_clk, tot_ackWs_trlk, tokW, b2n_true, b2n_false, bgClk_run, bgClk_idle, bgClk_exited, bgClk_parked, bgClk_clearW, bgClk_afterCmd, bphClk, St.bg, onOk, onErr, selNext, afterSetErr, srAllW, srW] <;> (try omega)
   | bgWorkCorrupt _ b w hb hk =>
     clear h4 hJ1 hJ2
-    cases b <;> (try simp only [St.setDone, St.setBg]) <;> (repeat' split) <;> simp_all [tot_ackWs_tok, tot_ackWs_clk, tot_ackWs_trlk, tokW, b2n_true, b2n_false, bgClk_run, bgClk_idle, bgClk_exited, bgClk_parked, bgClk_clearW, bgClk_afterCmd, bphClk, St.bg, onOk, onErr, selNext, afterSetErr, srAllW, srW] <;> (try omega)
+    cases b <;> (try simp only [St.setDone, St.setBg, ↓reduceIte, Bool.false_eq_true, Bool.and_false, Bool.and_true, Bool.false_and, Bool.true_and]) <;> (repeat' split) <;> simp_all [tot_ackWs_tok, tot_ackWs_clk, tot_ackWs_trlk, tokW, b2n_true, b2n_false, bgClk_run, bgClk_idle, bgClk_exited, bgClk_parked, bgClk_clearW, bgClk_afterCmd, bphClk, St.bg, onOk, onErr, selNext, afterSetErr, srAllW, srW] <;> (try omega)
   | bgCommitCorrupt _ b w hb hk =>
     clear h4 hJ1 hJ2
-    cases b <;> (try simp only [St.setDone, St.setBg]) <;> (repeat' split) <;> simp_all [tot_ackWs_tok, tot_ackWs_clk, tot_ackWs_trlk, tokW, b2n_true, b2n_false, bgClk_run, bgClk_idle, bgClk_exited, bgClk_parked, bgClk_clearW, bgClk_afterCmd, bphClk, St.bg, onOk, onErr, selNext, afterSetErr, srAllW, srW] <;> (try omega)
+    cases b <;> (try simp only [St.setDone, St.setBg, ↓reduceIte, Bool.false_eq_true, Bool.and_false, Bool.and_true, Bool.false_and, Bool.true_and]) <;> (repeat' split) <;> simp_all [tot_ackWs_tok, tot_ackWs_clk, tot_ackWs_trlk, tokW, b2n_true, b2n_false, bgClk_run, bgClk_idle, bgClk_exited, bgClk_parked, bgClk_clearW, bgClk_afterCmd, bphClk, St.bg, onOk, onErr, selNext, afterSetErr, srAllW, srW] <;> (try omega)
   | bgSetErrCorrupt _ b w c hb he =>
     clear h4 hJ1 hJ2
-    cases b <;> cases c <;> (try simp only [St.setDone, St.setBg]) <;> (repeat' split) <;> simp_all [tot_ackWs_tok, tot_ackWs_clk, tot_ackWs_trlk, tokW, b2n_true, b2n_false, bgClk_run, bgClk_idle, bgClk_exited, bgClk_parked, bgClk_clearW, bgClk_afterCmd, bphClk, St.bg, onOk, onErr, selNext, afterSetErr, srAllW, srW] <;> (try omega)
+    cases b <;> cases c <;> (try simp only [St.setDone, St.setBg, ↓reduceIte, Bool.false_eq_true, Bool.and_false, Bool.and_true, Bool.false_and, Bool.true_and]) <;> (repeat' split) <;> simp_all [tot_ackWs_tok, tot_ackWs_clk, tot_ackWs_trlk, tokW, b2n_true, b2n_false, bgClk_run, bgClk_idle, bgClk_exited, bgClk_parked, bgClk_clearW, bgClk_afterCmd, bphClk, St.bg, onOk, onErr, selNext, afterSetErr, srAllW, srW] <;> (try omega)
   | bgWorkOk _ b w hb =>
     clear h4 hJ1 hJ2
-    cases b <;> (try simp only [St.setDone, St.setBg]) <;> (repeat' split) <;> simp_all [tot_ackWs_tok, tot_ackWs_clk, tot_ackWs_trlk, tokW, b2n_true, b2n_false, bgClk_run, bgClk_idle, bgClk_exited, bgClk_parked, bgClk_clearW, bgClk_afterCmd, bphClk, St.bg, onOk, onErr, selNext, afterSetErr, srAllW, srW] <;> (try omega)
+    cases b <;> (try simp only [St.setDone, St.setBg, ↓reduceIte, Bool.false_eq_true, Bool.and_false, Bool.and_true, Bool.false_and, Bool.true_and]) <;> (repeat' split) <;> simp_all [tot_ackWs_tok, tot_ackWs_clk, tot_ackWs_trlk, tokW, b2n_true, b2n_false, bgClk_run, bgClk_idle, bgClk_exited, bgClk_parked, bgClk_clearW, bgClk_afterCmd, bphClk, St.bg, onOk, onErr, selNext, afterSetErr, srAllW, srW] <;> (try omega)
   | bgWorkFail _ b w hb =>
     clear h4 hJ1 hJ2
-    cases b <;> (try simp only [St.setDone, St.setBg]) <;> (repeat' split) <;> simp_all [tot_ackWs_tok, tot_ackWs_clk, tot_ackWs_trlk, tokW, b2n_true, b2n_false, bgClk_run, bgClk_idle, bgClk_exited, bgClk_parked, bgClk_clearW, bgClk_afterCmd, bphClk, St.bg, onOk, onErr, selNext, afterSetErr, srAllW, srW] <;> (try omega)
+    cases b <;> (try simp only [St.setDone, St.setBg, ↓reduceIte, Bool.false_eq_true, Bool.and_false, Bool.and_true, Bool.false_and, Bool.true_and]) <;> (repeat' split) <;> simp_all [tot_ackWs_tok, tot_ackWs_clk, tot_ackWs_trlk, tokW, b2n_true, b2n_false, bgClk_run, bgClk_idle, bgClk_exited, bgClk_parked, bgClk_clearW, bgClk_afterCmd, bphClk, St.bg, onOk, onErr, selNext, afterSetErr, srAllW, srW] <;> (try omega)
   | bgCommitOk _ b w hb =>
     clear h4 hJ1 hJ2
-    cases b <;> (try simp only [St.setDone, St.setBg]) <;> (repeat' split) <;> simp_all [tot_ackWs_tok, tot_ackWs_clk, tot_ackWs_trlk, tokW, b2n_true, b2n_false, bgClk_run, bgClk_idle, bgClk_exited, bgClk_parked, bgClk_clearW, bgClk_afterCmd, bphClk, St.bg, onOk, onErr, selNext, afterSetErr, srAllW, srW] <;> (try omega)
+    cases b <;> (try simp only [St.setDone, St.setBg, ↓reduceIte, Bool.false_eq_true, Bool.and_false, Bool.and_true, Bool.false_and, Bool.true_and]) <;> (repeat' split) <;> simp_all [tot_ackWs_tok, tot_ackWs_clk, tot_ackWs_trlk, tokW, b2n_true, b2n_false, bgClk_run, bgClk_idle, bgClk_exited, bgClk_parked, bgClk_clearW, bgClk_afterCmd, bphClk, St.bg, onOk, onErr, selNext, afterSetErr, srAllW, srW] <;> (try omega)
   | bgCommitFail _ b w hb =>
     clear h4 hJ1 hJ2
-    cases b <;> (try simp only [St.setDone, St.setBg]) <;> (repeat' split) <;> simp_all [tot_ackWs_tok, tot_ackWs_clk, tot_ackWs_trlk, tokW, b2n_true, b2n_false, bgClk_run, bgClk_idle, bgClk_exited, bgClk_parked, bgClk_clearW, bgClk_afterCmd, bphClk, St.bg, onOk, onErr, selNext, afterSetErr, srAllW, srW] <;> (try omega)
+    cases b <;> (try simp only [St.setDone, St.setBg, ↓reduceIte, Bool.false_eq_true, Bool.and_false, Bool.and_true, Bool.false_and, Bool.true_and]) <;> (repeat' split) <;> simp_all [tot_ackWs_tok, tot_ackWs_clk, tot_ackWs_trlk, tokW, b2n_true, b2n_false, bgClk_run, bgClk_idle, bgClk_exited, bgClk_parked, bgClk_clearW, bgClk_afterCmd, bphClk, St.bg, onOk, onErr, selNext, afterSetErr, srAllW, srW] <;> (try omega)
   | bgSetErr _ b w ok c hb he =>
     clear h4 hJ1 hJ2
-    cases b <;> cases ok <;> cases c <;> (try simp only [St.setDone, St.setBg]) <;> (repeat' split) <;> simp_all [tot_ackWs_tok, tot_ackWs_clk, tot_ackWs_trlk, tokW, b2n_true, b2n_false, bgClk_run, bgClk_idle, bgClk_exited, bgClk_parked, bgClk_clearW, bgClk_afterCmd, bphClk, St.bg, onOk, onErr, selNext, afterSetErr, srAllW, srW] <;> (try omega)
+    cases b <;> cases ok <;> cases c <;> (try simp only [St.setDone, St.setBg, ↓reduceIte, Bool.false_eq_true, Bool.and_false, Bool.and_true, Bool.false_and, Bool.true_and]) <;> (repeat' split) <;> simp_all [tot_ackWs_tok, tot_ackWs_clk, tot_ackWs_trlk, tokW, b2n_true, b2n_false, bgClk_run, bgClk_idle, bgClk_exited, bgClk_parked, bgClk_clearW, bgClk_afterCmd, bphClk, St.bg, onOk, onErr, selNext, afterSetErr, srAllW, srW] <;> (try omega)
   | bgSetErrPer _ b w c hb he =>
     clear h4 hJ1 hJ2
-    cases b <;> cases c <;> (try simp only [St.setDone, St.setBg]) <;> (repeat' split) <;> simp_all [tot_ackWs_tok, tot_ackWs_clk, tot_ackWs_trlk, tokW, b2n_true, b2n_false, bgClk_run, bgClk_idle, bgClk_exited, bgClk_parked, bgClk_clearW, bgClk_afterCmd, bphClk, St.bg, onOk, onErr, selNext, afterSetErr, srAllW, srW] <;> (try omega)
+    cases b <;> cases c <;> (try simp only [St.setDone, St.setBg, ↓reduceIte, Bool.false_eq_true, Bool.and_false, Bool.and_true, Bool.false_and, Bool.true_and]) <;> (repeat' split) <;> simp_all [tot_ackWs_tok, tot_ackWs_clk, tot_ackWs_trlk, tokW, b2n_true, b2n_false, bgClk_run, bgClk_idle, bgClk_exited, bgClk_parked, bgClk_clearW, bgClk_afterCmd, bphClk, St.bg, onOk, onErr, selNext, afterSetErr, srAllW, srW] <;> (try omega)
   | bgBackoff _ b w c hb =>
     clear h4 hJ1 hJ2
-    cases b <;> cases c <;> (try simp only [St.setDone, St.setBg]) <;> (repeat' split) <;> simp_all [tot_ackWs_tok, tot_ackWs_clk, tot_ackWs_trlk, tokW, b2n_true, b2n_false, bgClk_run, bgClk_idle, bgClk_exited, bgClk_parked, bgClk_clearW, bgClk_afterCmd, bphClk, St.bg, onOk, onErr, selNext, afterSetErr, srAllW, srW] <;> (try omega)
+    cases b <;> cases c <;> (try simp only [St.setDone, St.setBg, ↓reduceIte, Bool.false_eq_true, Bool.and_false, Bool.and_true, Bool.false_and, Bool.true_and]) <;> (repeat' split) <;> simp_all [tot_ackWs_tok, tot_ackWs_clk, tot_ackWs_trlk, tokW, b2n_true, b2n_false, bgClk_run, bgClk_idle, bgClk_exited, bgClk_parked, bgClk_clearW, bgClk_afterCmd, bphClk, St.bg, onOk, onErr, selNext, afterSetErr, srAllW, srW] <;> (try omega)
   | bgLockClk _ b w hb hl =>
     clear h4 hJ1 hJ2
-    cases b <;> (try simp only [St.setDone, St.setBg]) <;> (repeat' split) <;> simp_all [tot_ackWs_tok, tot_ackWs_clk, tot_ackWs_trlk, tokW, b2n_true, b2n_false, bgClk_run, bgClk_idle, bgClk_exited, bgClk_parked, bgClk_clearW, bgClk_afterCmd, bphClk, St.bg, onOk, onErr, selNext, afterSetErr, srAllW, srW] <;> (try omega)
+    cases b <;> (try simp only [St.setDone, St.setBg, ↓reduceIte, Bool.false_eq_true, Bool.and_false, Bool.and_true, Bool.false_and, Bool.true_and]) <;> (repeat' split) <;> simp_all [tot_ackWs_tok, tot_ackWs_clk, tot_ackWs_trlk, tokW, b2n_true, b2n_false, bgClk_run, bgClk_idle, bgClk_exited, bgClk_parked, bgClk_clearW, bgClk_afterCmd, bphClk, St.bg, onOk, onErr, selNext, afterSetErr, srAllW, srW] <;> (try omega)
   | bgAck _ b w hb =>
     clear h4 hJ1 hJ2
-    cases b <;> (try simp only [St.setDone, St.setBg]) <;> (repeat' split) <;> simp_all [tot_ackWs_tok, tot_ackWs_clk, tot_ackWs_trlk, tokW, b2n_true, b2n_false, bgClk_run, bgClk_idle, bgClk_exited, bgClk_parked, bgClk_clearW, bgClk_afterCmd, bphClk, St.bg, onOk, onErr, selNext, afterSetErr, srAllW, srW] <;> (try omega)
+    cases b <;> (try simp only [St.setDone, St.setBg, ↓reduceIte, Bool.false_eq_true, Bool.and_false, Bool.and_true, Bool.false_and, Bool.true_and]) <;> (repeat' split) <;> simp_all [tot_ackWs_tok, tot_ackWs_clk, tot_ackWs_trlk, tokW, b2n_true, b2n_false, bgClk_run, bgClk_idle, bgClk_exited, bgClk_parked, bgClk_clearW, bgClk_afterCmd, bphClk, St.bg, onOk, onErr, selNext, afterSetErr, srAllW, srW] <;> (try omega)
   | bgExit _ b w ph hb hx =>
     clear h4 hJ1 hJ2
-    cases b <;> cases ph <;> (try simp only [St.setDone, St.setBg]) <;> (repeat' split) <;> simp_all [tot_ackWs_tok, tot_ackWs_clk, tot_ackWs_trlk, tokW, b2n_true, b2n_false, bgClk_run, bgClk_idle, bgClk_exited, bgClk_parked, bgClk_clearW, bgClk_afterCmd, bphClk, St.bg, onOk, onErr, selNext, afterSetErr, srAllW, srW] <;> (try omega)
+    cases b <;> cases ph <;> (try simp only [St.setDone, St.setBg, ↓reduceIte, Bool.false_eq_true, Bool.and_false, Bool.and_true, Bool.false_and, Bool.true_and]) <;> (repeat' split) <;> simp_all [tot_ackWs_tok, tot_ackWs_clk, tot_ackWs_trlk, tokW, b2n_true, b2n_false, bgClk_run, bgClk_idle, bgClk_exited, bgClk_parked, bgClk_clearW, bgClk_afterCmd, bphClk, St.bg, onOk, onErr, selNext, afterSetErr, srAllW, srW] <;> (try omega)
 
 end GoLevel.Locks
